@@ -118,6 +118,9 @@ type fecDecoder struct {
 	// record the latest recovered shard id
 	// the shards smaller than this one will be discarded
 	newestShardId uint32
+	// newestShardId has been taken from a packet since the decoder was created
+	// or last re-tuned (shard ids are counted in units of shardSize)
+	newestShardIdSet bool
 
 	// caches
 	decodeCache [][]byte
@@ -215,6 +218,8 @@ func (dec *fecDecoder) decode(in fecPacket) (recovered [][]byte) {
 				dec.decodeCache = make([][]byte, dec.shardSize)
 				dec.flagCache = make([]bool, dec.shardSize)
 				dec.paws = 0xffffffff / uint32(dec.shardSize) * uint32(dec.shardSize)
+				// the newest shard id was counted in units of the old shardSize
+				dec.newestShardIdSet = false
 				//log.Println("autotune to :", dec.dataShards, dec.parityShards)
 			}
 			// reset shouldTune flag regardless of whether parameters changed
@@ -322,8 +327,9 @@ func (dec *fecDecoder) decode(in fecPacket) (recovered [][]byte) {
 	}
 
 	// update the newest shard id
-	if _itimediff(shardId*uint32(dec.shardSize), dec.newestShardId*uint32(dec.shardSize)) > 0 {
+	if !dec.newestShardIdSet || _itimediff(shardId*uint32(dec.shardSize), dec.newestShardId*uint32(dec.shardSize)) > 0 {
 		dec.newestShardId = shardId
+		dec.newestShardIdSet = true
 		atomic.StoreUint64(&DefaultSnmp.FECShardMin, uint64(dec.newestShardId))
 	}
 
